@@ -8,6 +8,7 @@ package exchange
 //@   assigns nothing
 //@   ensures[C18] wraps-next: istype(result, *exchange.concurrencyOperator) && fresh(result) &&
 //@       cast(result, *exchange.concurrencyOperator).next == next && cast(result, *exchange.concurrencyOperator).bufferSize == bufferSize
+//@   ensures[C13] buffer-open: cast(result, *exchange.concurrencyOperator).buffer != nil && !closed(cast(result, *exchange.concurrencyOperator).buffer)
 
 //@ func NewCoalesce
 //@   assigns nothing
@@ -16,3 +17,48 @@ package exchange
 //@       len(cast(result, *exchange.coalesceOperator).operators) == len(operators) &&
 //@       ref(cast(result, *exchange.coalesceOperator).operators) == ref(operators) &&
 //@       len(cast(result, *exchange.coalesceOperator).sampleOffsets) == len(operators)
+
+// ---- goroutine roots (C13) -----------------------------------------------------------------------
+// A goroutine started by an operator is a panic domain of its own: nothing above it recovers. The
+// functions below are the bodies of such goroutines; none of them declares `panics may`, so that a
+// panic escaping them - from a child operator or from a storage callback on that goroutine - is a
+// failed obligation. Channels are abstracted sequentially (closed/sent ghosts; blocking not modelled;
+// assumed: no other goroutine closes the channel such a body sends on or closes).
+
+// pull: whatever the child does (result, error, end, panic), the consumer gets it through the buffer,
+// the buffer is closed exactly once at the end, and a panic is delivered as an error.
+//@ func (*concurrencyOperator).pull
+//@   requires c != nil && ctx != nil && c.next != nil && !closed(c.buffer) && c.buffer != nil
+//@   ghostvar nerr int = 0
+//@   at line "c.buffer <- maybeStepVector{err: fmt.Errorf(" set nerr = nerr + 1
+//@   ensures[C13] buffer-closed-at-the-end: closed(c.buffer)
+//@   ensures[C13,C15] a-panic-below-is-delivered-as-an-error: RECOVERED ==> nerr == 1
+//@   loop 0 invariant c != nil && ctx != nil && c.next != nil && !closed(c.buffer) && c.buffer != nil && nerr == 0
+
+// The series loader goroutine of the coalesce operator: a panic of the child's Series (storage
+// callbacks run here) never escapes, and every recovered panic - whatever its value - is reported
+// on the error channel, so that the query fails instead of going on without a series list.
+//@ func (*coalesceOperator).loadSeries$1
+//@   requires c != nil && ctx != nil && 0 <= i && i < len(c.operators) && c.operators[i] != nil && len(allSeries) == len(c.operators) && !closed(errChan)
+//@   ghostvar nrep int = 0
+//@   at line "errChan <- errors.Wrapf(err" set nrep = nrep + 1
+//@   at line "errChan <- errors.Newf(" set nrep = nrep + 1
+//@   ensures[C13] every-recovered-panic-is-reported: RECOVERED ==> nrep == 1
+//@   ensures[C13,C15] a-series-error-is-reported: !RECOVERED && callres("model.VectorOperator.Series", 1, 1) != nil ==> sent(errChan) == old(sent(errChan)) + 1
+
+// drainBufferOnCancel: receives only; nothing here can panic.
+//@ func (*concurrencyOperator).drainBufferOnCancel
+//@   requires c != nil && ctx != nil
+//@   loop 0 invariant c != nil
+
+// The merge goroutines of coalesce.Next call Next of a child that is itself a concurrency operator (every
+// shard and every remote execution is wrapped by NewConcurrent in execution.newOperator): its Next only
+// reads the buffer filled by pull, which contains the panics of whatever runs below it.
+//@ func (*coalesceOperator).Next$2
+//@   trusted assumed not to let a panic escape: the children of a coalesce operator are concurrency operators, whose Next receives from a channel
+
+// concurrencyOperator.Next: starts pull (once) and hands on what arrives through the buffer. It cannot
+// panic itself (no `panics may`): that is what the trusted contract of the coalesce merge goroutines rests on.
+//@ func (*concurrencyOperator).Next
+//@   requires ctx != nil && c != nil && c.next != nil && c.buffer != nil && !closed(c.buffer)
+//@   ensures[C18] error-means-no-batch: result1 != nil ==> isnil(result0)
